@@ -4,6 +4,7 @@ import (
 	"encoding/json"
 	"fmt"
 	"os"
+	"regexp"
 	"runtime"
 	"sort"
 	"strings"
@@ -752,6 +753,8 @@ func checkHeir(t run.TB, c HeirCase) (accepted bool) {
 	return a.OK
 }
 
+var typeNameRe = regexp.MustCompile(`@[a-z]+`)
+
 func TestInheritedCycles(t *testing.T) {
 	run.SkipIfReplaying(t)
 	defer run.Done(t, chkHeir)
@@ -782,7 +785,37 @@ func TestInheritedCycles(t *testing.T) {
 		}
 		aText := rapid.SampledFrom([]string{"{\n  \"x\": @b\n}", "{\n  \"x\": @b,\n  \"n\": 1\n}", "{\n  \"x\": @b | @b\n}"}).Draw(t, "a")
 		root := rapid.SampledFrom([]string{"@a", "{\n  \"r\": @a\n}", "[@a]", "{\n  \"r\": @b\n}"}).Draw(t, "root")
-		know := rapid.IntRange(0, 3).Draw(t, "typesKnowTypes") != 0
+		wiring := rapid.SampledFrom([]string{"all", "all", "flat", "own-names"}).Draw(t, "wiring")
+		know := wiring == "all"
+		wire := func(sp *lib.Spec) {
+			if wiring == "own-names" {
+				// every type object is given exactly the types its own text names (objects of their own,
+				// equal in text to the ones the root gets): what a type inherits names types its own
+				// table may not hold
+				texts := map[string]string{}
+				for _, ty := range sp.Types {
+					texts[ty.Name] = ty.Text
+				}
+				var own func(name string, depth int) []lib.Named
+				own = func(name string, depth int) []lib.Named {
+					if depth == 0 {
+						return nil
+					}
+					var in []lib.Named
+					seen := map[string]bool{name: true}
+					for _, nm := range typeNameRe.FindAllString(texts[name], -1) {
+						if !seen[nm] {
+							seen[nm] = true
+							in = append(in, lib.Named{Name: nm, Text: texts[nm], Inner: own(nm, depth-1)})
+						}
+					}
+					return in
+				}
+				for i := range sp.Types {
+					sp.Types[i].Inner = own(sp.Types[i].Name, 5) // (deeper than the longest cycle)
+				}
+			}
+		}
 		mk := func(b, m string) lib.Spec {
 			sp := lib.Spec{Schema: root, TypesKnowTypes: know, Types: []lib.Named{{Name: "@a", Text: aText}, {Name: "@b", Text: b}, {Name: "@c", Text: cText}, {Name: "@m", Text: m}, {Name: "@leaf", Text: "1"}}}
 			if rapid.Bool().Draw(t, "order") {
@@ -803,9 +836,11 @@ func TestInheritedCycles(t *testing.T) {
 				c.Plain.Types[i].Text = mPlain
 			}
 		}
+		wire(&c.WithAllOf)
+		wire(&c.Plain)
 		acc := checkHeir(t, c)
 		run.Eval(chkHeir, true, fmt.Sprint(c.WithAllOf))
-		run.Label(fmt.Sprintf("heir:accepted=%v:wired=%v", acc, know))
+		run.Label(fmt.Sprintf("heir:accepted=%v:wiring=%s", acc, wiring))
 		run.Sample(chkHeir, c)
 	})
 }
